@@ -275,6 +275,7 @@ func runC04(c *run.Ctx) {
 	fixedCases(c, timeLocationCases(), oracleC04)
 	fixedCases(c, confusableCases(), oracleC04)
 	fixedCases(c, signedZeroCases(), oracleC04)
+	fixedCases(c, nearLiteralCases(), oracleC04)
 	c.Note("time zone of this worker: " + time.Local.String())
 }
 
